@@ -15,6 +15,7 @@ import (
 	"path/filepath"
 	"sort"
 	"strconv"
+	"strings"
 	"testing"
 	"time"
 
@@ -267,6 +268,16 @@ func TestDrv_C10(t *testing.T) {
 					tr.Emit("Close", closeEvent(&m, "fields"))
 					closes++
 				}
+				if pi == 1 { // the text reporter shows the same exact values (rounded ones are not compared)
+					var buf bytes.Buffer
+					if err := vegeta.NewTextReporter(&m).Report(&buf); err != nil {
+						tr.Emit("Panic", KV{"what": "TextReporter", "value": err.Error()})
+					} else if kv, err := textReportEvent(buf.String()); err != nil {
+						tr.Emit("Panic", KV{"what": "TextReporter output", "value": err.Error()})
+					} else {
+						tr.Emit("TextReport", kv)
+					}
+				}
 				if pi == 0 { // the JSON reporter shows the same values
 					var buf bytes.Buffer
 					if err := vegeta.NewJSONReporter(&m).Report(&buf); err != nil {
@@ -366,4 +377,72 @@ func TestDrv_C10(t *testing.T) {
 	}
 	writeJSON(filepath.Join(dir, "c10.summary.json"), KV{"multisets": multisets, "cases": cases, "adds": adds, "closes": closes,
 		"cli_reports": len(cliJobs), "grid_cases": grid, "samples": samples})
+}
+
+// textReportEvent reads the exact fields of the text report: request count, byte totals, status codes, error set.
+func textReportEvent(rep string) (KV, error) {
+	kv := KV{}
+	lines := strings.Split(rep, "\n")
+	errs := []string{}
+	inErrs := false
+	field := func(ln string) []string {
+		i := strings.LastIndex(ln, "]")
+		if i < 0 {
+			return nil
+		}
+		return strings.Fields(strings.ReplaceAll(ln[i+1:], ",", " "))
+	}
+	for _, ln := range lines {
+		switch {
+		case inErrs:
+			if ln != "" {
+				errs = append(errs, ln)
+			}
+		case strings.HasPrefix(ln, "Requests"):
+			f := field(ln)
+			if len(f) < 1 {
+				return nil, fmt.Errorf("bad line %q", ln)
+			}
+			n, err := strconv.ParseUint(f[0], 10, 64)
+			if err != nil {
+				return nil, err
+			}
+			kv["requests"] = n
+		case strings.HasPrefix(ln, "Bytes In"), strings.HasPrefix(ln, "Bytes Out"):
+			f := field(ln)
+			if len(f) < 1 {
+				return nil, fmt.Errorf("bad line %q", ln)
+			}
+			n, err := strconv.ParseUint(f[0], 10, 64)
+			if err != nil {
+				return nil, err
+			}
+			if strings.HasPrefix(ln, "Bytes In") {
+				kv["bytes_in"] = Big(n)
+			} else {
+				kv["bytes_out"] = Big(n)
+			}
+		case strings.HasPrefix(ln, "Status Codes"):
+			codes := [][]int{}
+			for _, p := range field(ln) {
+				c, cnt, ok := strings.Cut(p, ":")
+				ci, e1 := strconv.Atoi(c)
+				ni, e2 := strconv.Atoi(cnt)
+				if !ok || e1 != nil || e2 != nil {
+					return nil, fmt.Errorf("bad status code entry %q", p)
+				}
+				codes = append(codes, []int{ci, ni})
+			}
+			kv["codes"] = codes
+		case strings.HasPrefix(ln, "Error Set:"):
+			inErrs = true
+		}
+	}
+	kv["errors"] = errs
+	for _, k := range []string{"requests", "bytes_in", "bytes_out", "codes"} {
+		if _, ok := kv[k]; !ok {
+			return nil, fmt.Errorf("text report lacks %s", k)
+		}
+	}
+	return kv, nil
 }
